@@ -27,6 +27,13 @@ bcs/ledger/xledger/state by
     tier: the same driver built with -race as a sensor (a report on the lock table is a trace event no action
     explains; other reports are diagnostics in the evidence).
 
+Scenario families: kv (contract keys), tok (outputs, selections), mix (MIXED transactions m1..m5 with a token part AND
+a key part; pairs in conflict on the key only, the output only, both; the schedules include the window of
+Chain.SubmitTx - both verified, the winner writes, the loser is refused inside doTxInternal with its inputs unspent).
+The driver asks State.GetBalance of every party BEFORE the requests of every run (fills the node's balance cache) and
+after them; Trace_SpinLock compares the answers with the prelude state, with the sum over the raw utxo table and with
+the balances implied by the admitted set alone (pending transactions + block).
+
 The played / walked blocks contain a contract invocation the node has not seen (family kv: verified under the
 exclusive lock through the real contract and ACL managers, which read the confirmed tip). A request that does not
 return within the driver's bound has the result class "hang", which the specification never produces. Every run is
@@ -248,6 +255,13 @@ class Stats:
         self.contract_blocks = 0    # blocks played / walked whose contract invocation was verified under the exclusive lock
         self.account_blocks = 0     # ... whose spend of an account-owned output was verified under the exclusive lock
         self.plays = 0
+        self.mixed_pairs = 0        # pairs of concurrent submissions that both have a token part AND a key part
+        self.mixed_pairs_by_kind = {"key": 0, "output": 0, "both": 0, "none": 0}     # ... by what they conflict on
+        self.mixed_key_stage = 0    # gated: a mixed submission refused inside doTxInternal for a superseded read while its inputs are unspent
+        self.mixed_window = 0       # ... that had passed VerifyTx before the winner's write (window between VerifyTx and DoTx)
+        self.mixed_free_refused = 0  # free-running: a mixed submission refused as stale while its inputs are still unspent
+        self.bal_compared = 0       # balances answered from the filled balance cache and compared (before / after / after the epilogue)
+        self.bal_changed = 0        # ... of parties whose balance the run changed
 
     def order_sensitive(self, sc):
         """A walk re-submits the rolled-back transactions in no particular order (map iteration): with a reader and a
@@ -265,7 +279,52 @@ class Stats:
         return False
 
     def fam_of(self, sc):
+        if any(n in self.cat.get("mixnames", []) for n in sc):
+            return "mix"
         return "kv" if sc[0] in self.cat["kvnames"] else "tok"
+
+    def mixed(self, t):
+        c = self.cat["tx"][t]
+        return bool(c["ins"]) and any(v != "-" for v in c["reads"].values())
+
+    def add_mixed(self, e):
+        """Vacuity counters of the mixed transactions and of the balance comparison."""
+        req = self.cat["req"]
+        sc, res, o = e["sc"], e["res"], e["obs"]
+        n = len(sc)
+        if e.get("bal0") and len(o.get("bal", [])) == len(e["bal0"]):
+            self.bal_compared += 3 * len(e["bal0"])
+            self.bal_changed += sum(1 for x, y in zip(e["bal0"], o["bal"]) if x != y)
+        mx = [i for i in range(n) if req[sc[i]]["ty"] == "dotx" and self.mixed(req[sc[i]]["t"])]
+        for a in range(len(mx)):
+            for b in range(a + 1, len(mx)):
+                t, u = self.cat["tx"][req[sc[mx[a]]]["t"]], self.cat["tx"][req[sc[mx[b]]]["t"]]
+                if sc[mx[a]] == sc[mx[b]]:
+                    continue
+                self.mixed_pairs += 1
+                on_out = bool({tuple(i) for i in t["ins"]} & {tuple(i) for i in u["ins"]})
+                on_key = any(t["writes"][k] != "-" and u["reads"][k] != "-" or u["writes"][k] != "-" and t["reads"][k] != "-" for k in t["writes"])
+                self.mixed_pairs_by_kind["both" if on_out and on_key else "output" if on_out else "key" if on_key else "none"] += 1
+        utxo = {tuple(x) for x in o.get("utxo", [])}
+        for i in mx:
+            c = self.cat["tx"][req[sc[i]]["t"]]
+            if res[i]["c"] != "stale" or not all(tuple(x) in utxo for x in c["ins"]):
+                continue
+            if not any(v != "-" and o["ver"].get(k) != v for k, v in c["reads"].items()):
+                continue
+            if e["mode"] != "gated":
+                self.mixed_free_refused += 1
+                continue
+            p = i + 1
+            sites = [(j, q, site) for j, (q, site, _) in enumerate(e["steps"])]
+            apply_at = [j for j, q, site in sites if q == p and site == "dotx_before_apply"]
+            if not apply_at:
+                continue            # turned away by VerifyTx: never reached doTxInternal
+            self.mixed_key_stage += 1
+            ver_at = [j for j, q, site in sites if q == p and site == "verified"]
+            wrote = [j for j, q, site in sites if q != p and site == "dotx_after_write"]
+            if ver_at and any(ver_at[0] < j < apply_at[0] for j in wrote):
+                self.mixed_window += 1
 
     def conflict(self, t, u):
         a, b = self.cat["tx"][t], self.cat["tx"][u]
@@ -281,6 +340,7 @@ class Stats:
     def add(self, e):
         req = self.cat["req"]
         sc, res = e["sc"], e["res"]
+        self.add_mixed(e)
         for r in res:
             self.classes[r["c"]] = self.classes.get(r["c"], 0) + 1
             if r["c"] == "busy":
@@ -383,6 +443,12 @@ def validate(run, stats, trace, tag, kf_known):
     what = "%s run of %s: %s not explained by any one-at-a-time order (results %s, pool %s, versions %s)" % (
         e.get("mode"), e.get("sc"), res["div"].get("why"), [r.get("c") for r in e.get("res", [])],
         e.get("obs", {}).get("pool"), e.get("obs", {}).get("ver"))
+    if str(res["div"].get("why", "")).startswith("balance"):
+        what = ("%s run of %s (results %s, pool %s): the balances State.GetBalance answers for %s - before the requests %s, after "
+                "them %s, after the one-at-a-time epilogue %s - are not those of the unspent outputs / of the admitted set (%s): "
+                "a request that was refused or undone has left a trace" % (
+                    e.get("mode"), e.get("sc"), [r.get("c") for r in e.get("res", [])], e.get("obs", {}).get("pool"),
+                    stats.cat.get("addrs"), e.get("bal0"), e.get("obs", {}).get("bal"), e.get("obs2", {}).get("bal"), res["div"].get("why")))
     hung = [e["sc"][i] for i, r in enumerate(e.get("res", [])) if r.get("c") == "hang"]
     if hung:
         what = "%s run of %s: request(s) %s did not return within the driver's bound (deadlock; results %s)" % (
@@ -555,6 +621,11 @@ def check(run):
     run.cov["runs_gated"] = stats.gated
     run.cov["runs_free"] = stats.free
     run.cov["runs_not_described_by_step_model"] = len(stats.inexact)
+    run.cov["mixed_transactions"] = {"pairs": stats.mixed_pairs, "pairs_by_conflict": stats.mixed_pairs_by_kind,
+                                     "refused_at_key_stage_inputs_unspent_gated": stats.mixed_key_stage,
+                                     "of_which_verified_before_the_winners_write": stats.mixed_window,
+                                     "refused_stale_inputs_unspent_free_running": stats.mixed_free_refused,
+                                     "balances_compared": stats.bal_compared, "balances_changed_and_compared": stats.bal_changed}
     run.assumptions += [
         "selections have no yield point in /repo: in gated runs a SelectUtxos call is one step (free-running runs interleave it)",
         "a refusal for a busy try-lock (ErrDoubleSpent) is accepted whenever another request of the run asks for a conflicting key (R6)",
@@ -604,6 +675,14 @@ def check(run):
         "selections_contended": (stats.sel_contended, 10),
         "refusals_for_a_busy_lock": (stats.busy, 20),
         "free_running_runs": (stats.free, 500),
+        "mixed_pairs_executed": (stats.mixed_pairs, 300),
+        "mixed_pairs_in_conflict_on_the_key_only": (stats.mixed_pairs_by_kind["key"], 100),
+        "mixed_pairs_in_conflict_on_the_output_only": (stats.mixed_pairs_by_kind["output"], 20),
+        "mixed_pairs_in_conflict_on_both": (stats.mixed_pairs_by_kind["both"], 12),
+        "mixed_submissions_refused_at_the_key_stage_with_unspent_inputs": (stats.mixed_key_stage, 40),
+        "mixed_submissions_verified_before_and_refused_after_the_winners_write": (stats.mixed_window, 40),
+        "balances_compared_with_utxo_table_and_admitted_set": (stats.bal_compared, 50000),
+        "balances_changed_by_the_run_and_compared": (stats.bal_changed, 3000),
     })
 
 
